@@ -241,12 +241,16 @@ static split_type g_split_tag;
 #define INIT_my_allocator_1(s, a) ((s)->my_allocator = (a))
 #define INIT_is_right_child_1(s, e) ((s)->is_right_child = (e))
 #define STUB_get_range_split_object(so) (&(so))
+Body *g_zombie_place; bool *g_zombie_flag;
 int g_rcopies, g_rsplits, g_bsplits, g_bjoins, g_psplits; Range *g_rsplit_dst, *g_rsplit_src, *g_rcopy_dst; const Range *g_rcopy_src; Body *g_bsplit_dst, *g_bsplit_src, *g_bjoin_dst, *g_bjoin_src; void *g_rsplit_obj;
 static void Range_copy_ctor(Range *dst, const Range *src) { g_rcopies++; g_rcopy_dst = dst; g_rcopy_src = src; dst->id = src->id; }
 static void Range_split_ctor(Range *dst, Range *src, void *so) { g_rsplits++; g_rsplit_dst = dst; g_rsplit_src = src; g_rsplit_obj = so; dst->id = nondet_size_t(); src->id = nondet_size_t(); }   /* Range(r, split): *dst = the right part, *src shrinks to the left part */
 static bool range_empty_(const Range *r) { return r->id == 0; }
 #define Range_empty(r) range_empty_(&(r))
-static Body *Body_split_ctor(Body *place, Body *src) { g_bsplits++; g_bsplit_dst = place; g_bsplit_src = src; place->id = nondet_int(); return place; }   /* Body(src, split()) constructed at place */
+static Body *Body_split_ctor(Body *place, Body *src) {   /* Body(src, split()) constructed at place: user code, may throw */
+    if (g_zombie_place != NULL && place == g_zombie_place)
+        __CPROVER_assert(!*g_zombie_flag, "C06.lazy_split: the join node claims a zombie body (has_right_zombie) only after that body's split constructor has returned - if the constructor throws, ~reduction_tree_node must not destroy storage no Body was constructed in");
+    g_bsplits++; g_bsplit_dst = place; g_bsplit_src = src; place->id = nondet_int(); return place; }
 static void Body_join(Body *dst, Body *src) { g_bjoins++; g_bjoin_dst = dst; g_bjoin_src = src; }                                                        /* dst.join(src) */
 static void Partition_ctor(Partition *dst, Partitioner *p) { dst->divisor = nondet_int(); }
 static void Partition_split_ctor(Partition *dst, Partition *src, split_type *so) { g_psplits++; dst->divisor = nondet_int(); src->divisor = nondet_int(); }
@@ -332,7 +336,7 @@ static void mk_task(void) {    /* an arbitrary task that is about to run: the ro
     P.my_parent = nondet_bool() ? &P2 : NULL; P2.my_parent = NULL; P2.m_ref_count = 1;
     if (g_is_right0) { T.my_body = &LB; P.left_body = &LB; P.has_right_zombie = false; g_left_done = nondet_bool(); P.m_ref_count = g_left_done ? 1 : 2; }
     else { T.my_body = nondet_bool() ? &LB : &OB; P.left_body = T.my_body; P.has_right_zombie = nondet_bool(); P.m_ref_count = nondet_bool() ? 1 : 2; }
-    g_body0 = T.my_body; g_zombie_flag0 = P.has_right_zombie; g_parent_at_exit = &P;
+    g_body0 = T.my_body; g_zombie_flag0 = P.has_right_zombie; g_parent_at_exit = &P; g_zombie_place = &P.zombie; g_zombie_flag = &P.has_right_zombie;
 }
 void h_red_execute(void) {
     mk_task(); execution_data ed; ed.context = &g_ctx;
